@@ -118,6 +118,10 @@ def r2_release_once(r, facts):
             some = f.variant_edge(si, 'Some')
     r.inst('release under Some edge of take()', f.where(rl))
     r.require(some is not None and f.edge_dominates(some, rl), 'ReadBuf::release/guard', 'the pool release is not guarded by the Some edge of self.owned.take(): a buffer could be given back twice', f.where(rl))
+    # ... and on that edge it is unconditional: whatever the buffer's length after edits, its slot goes back
+    if some is not None:
+        hit = f.forward_paths_hit([Loc(some[1], 0)], f.returns(), blockers=[rl])
+        r.require(hit is None, 'ReadBuf::release/skipped', 'a ReadBuf that owns a pool buffer (self.owned is Some) can be released without giving the buffer back to the pool (an extra condition, e.g. on its length, sits between take() and the pool release): the slot is lost to the kernel', f.where(hit[0]) if hit else '')
     v = eb.operand(rt['args'][1])
     r.require(any(x[0] == 'proj' and '@Some' in x[2] for x in subexprs(v)) and any(x[0] == 'call' and x[1].endswith('Option::<T>::take') for x in subexprs(v)),
               'ReadBuf::release/value', 'the pointer released is not the one taken out of self.owned: %s' % (v,), f.where(rl))
